@@ -1347,7 +1347,7 @@ class PackedTensor(TensorBase, _protocols.TensorProtocol, Generic[TArrayCompatib
         package are used. The values can be reinterpreted as bit representations
         using the ``.view()`` method.
         """
-        array = self.numpy_packed()
+        array = self.numpy_packed().reshape(-1)
         # ONNX IR returns the unpacked arrays
         if self.dtype.bitwidth == 2:
             return _type_casting.unpack_2bitx4(array, self.shape.numpy()).view(
